@@ -3,8 +3,8 @@ CONSTANTS
   Scripts <- ScriptsVal
   Table <- TableVal
   StrictFin = TRUE
-  NV = 1
-  MaxBody = 1
+  NV = 2
+  MaxBody = 2
   MaxOps = 2
   MaxOut = 1
   MaxSpin = 1
@@ -12,7 +12,8 @@ CONSTANTS
   Live = TRUE
   Mode = "free"
   CancelInLoop = FALSE
-  DropCancels = FALSE
+  DropCancels = TRUE
   Emit = FALSE
-PROPERTIES DropNeverLeaks
+INVARIANTS TypeOK ContractHolds AtMostOnce ResultOnlyAfterEnd FinalValueAfterResult MonotoneObserved FlagOnlyByCancel
+PROPERTIES DropNeverLeaks CancelTerminates WorkerWaitFree
 CHECK_DEADLOCK FALSE
